@@ -247,7 +247,7 @@ Section Send.
 
   (** [SendKind::send] with an optional streaming future [f] = (the chunks it writes, the overridden length of
       [with_future_and_len]).  With a future [apply_to_response] does nothing ([is_stream]) and the length stated is
-      the overridden one — none at all for [with_future].  [head_future] = the code before the repair 572c88a, which
+      the overridden one — none at all for [with_future].  [head_future] = the code before the repair d63bba7, which
       ran the future also for HEAD. *)
   Definition send_pipe (head_future : bool) (p : proto) (secure : bool) (alt : option bytes) (m : N)
       (sd : outcome (option (N * N))) (r : resp) (f : option (list bytes * option N)) : outcome wreply :=
@@ -430,7 +430,7 @@ Fixpoint h2_reads (frames : list bytes) (limits : list N) : list bytes :=
 
 (** [extensions::stream_body] (the in-tree producer of streamed responses): which bytes of the file its future writes and
     the length it announces with [with_future_and_len]; [None] = it answers 416.  [range] = [sanitize_request]'s
-    (start, end) with start < end, end exclusive.  [clamp = false] is the code before the repair 7cbe1e5. *)
+    (start, end) with start < end, end exclusive.  [clamp = false] is the code before the repair d675f8a. *)
 Definition stream_plan (clamp : bool) (file : bytes) (range : option (N * N)) : option (bytes * N) :=
   let flen := N.of_nat (length file) in
   let start := match range with Some (a, _) => a | None => 0 end in
